@@ -355,7 +355,7 @@ func genSpec(t *rapid.T, depth int) goval.Spec {
 		}
 		return s
 	default:
-		return goval.Spec{K: "struct", Struct: rapid.SampledFrom([]string{"Inner", "PtrInner", "Flat", "Outer", "Outer", "EmbPtr", "Tagged", "Cross", "LocalA", "LocalB", "LocalB", "LocalA"}).Draw(t, "struct"), Fields: genFamily(t)}
+		return goval.Spec{K: "struct", Struct: rapid.SampledFrom([]string{"Inner", "PtrInner", "Flat", "Outer", "Outer", "EmbPtr", "Tagged", "Cross", "LocalA", "LocalB", "LocalB", "LocalA", "Untagged", "Untagged", "EmbHidden"}).Draw(t, "struct"), Fields: genFamily(t)}
 	}
 }
 
@@ -368,7 +368,10 @@ func TestC18(t *testing.T) {
 	check(t, "C18", cases(60000, 2500000), 0, propC18(collector("C18", ruleC18)))
 }
 
-func propC18(col *ev.Collector) func(rt *rapid.T) {
+func propC18(col *ev.Collector) func(rt *rapid.T) { return propC18For("C18", col) }
+
+// propC18For runs the C18 case for another check (C20 uses it as its document-API part).
+func propC18For(owner string, col *ev.Collector) func(rt *rapid.T) {
 	paths := c18Paths
 	dcfg := gen.DocCfg{Val: gen.ValCfg{MaxDepth: 1}, PAbsent: 3, Fields: []string{"x", "n", "s"}}
 	return func(rt *rapid.T) {
@@ -388,7 +391,7 @@ func propC18(col *ev.Collector) func(rt *rapid.T) {
 		}
 		c := &c18Case{Base: base, Path: rapid.SampledFrom(paths).Draw(rt, "path"), Val: genSpec(rt, 3)}
 		if f := runC18(c); f != nil {
-			violate(rt, "C18", "c18", c, f)
+			violate(rt, owner, "c18", c, f)
 		}
 		ptr, strct, depth := c.Val.Stats()
 		cl := []string{"kind:" + c.Val.K, fmt.Sprintf("pathlen:%d", len(strings.Split(c.Path, ".")))}
